@@ -387,7 +387,7 @@ impl Prop for C11 {
         match case {
             Case::RoundTrip { templates, states, .. } => *states <= 3_000 && templates.states.len() <= 3_000 && templates.build().is_ok(),
             Case::Text { s } | Case::V1Text { s } => s.len() <= 100_000,
-            Case::Mutated { base, muts, .. } => base.states.len() <= 64 && base.build().is_ok() && muts.len() <= 32,
+            Case::Mutated { base, muts, .. } => base.states.len() <= 64 && crate::props::canonical(base) && muts.len() <= 32,
             Case::Mirror { base, mutations } => base.states.len() <= 64 && mutations.len() <= 16,
             Case::Bomb { mib, .. } => *mib <= 4,
             Case::V1 { machine, muts, bomb_mib, .. } => machine.states.len() <= 16 && muts.len() <= 32 && *bomb_mib <= 1,
